@@ -566,6 +566,55 @@ def c06_11(ctx):
     return out
 
 
+def c06_14(ctx):
+    """P2SH-wrapped witness programs: BIP141 requires the scriptSig to be exactly the push of the redeem script.  The witness-v0
+    rules of evaluate are recognised by the *shape of the stack* (`len(stack) == 2`), so whatever else the scriptSig pushed
+    decides whether the program is executed at all: with one extra item below, `0 <hash>` is left on the stack as a truthy value
+    and the spend verifies without any signature.  Necessary condition checked: inside the P2SH arm, between the hash check and
+    the splice of the redeem script, there is a test of the stack's emptiness one of whose outcomes returns False."""
+    spec = "script:Script.evaluate"
+    mod, fn = rl.get(ctx, spec)
+    cfg = cfg_of(fn)
+    tg = _extend_targets(fn, lambda at, txt: ".parse(" in txt and "witness" not in txt and "encode_varstr(command" in txt)
+    if not tg:
+        raise AnalysisError("evaluate: P2SH redeem-script splice not found")
+    splice = tg[0]
+    verify = [n for n in cfg.tests() if isinstance(n.ast, ast.Call) and call_name(n.ast) == "op_verify"]
+    if not verify:
+        raise AnalysisError("evaluate: op_verify of the P2SH arm not found")
+    start = [b for b, l in cfg.succ[verify[0].id] if l is True]
+    region = cfg.reach(start, blocked={splice.id}) - {splice.id}
+    region = {i for i in region if splice.id in cfg.reach([i])}  # nodes from which the splice is still ahead
+    found = None
+    for n in cfg.tests():
+        if n.id not in region:
+            continue
+        t = n.ast
+        about_stack = (isinstance(t, ast.Name) and t.id == "stack") or \
+                      (isinstance(t, ast.Compare) and any(isinstance(x, ast.Call) and call_name(x) == "len" and x.args and dotted(x.args[0]) == "stack" for x in ast.walk(t))) or \
+                      (isinstance(t, ast.Compare) and any(dotted(x) == "stack" for x in (t.left, t.comparators[0])) and
+                       any(isinstance(x, ast.List) and not x.elts for x in (t.left, t.comparators[0])))
+        if not about_stack:
+            continue
+        for b, lab in cfg.succ[n.id]:
+            r = cfg.reach([b], blocked={splice.id})
+            if any(cfg.nodes[i].kind == "return" and cfg.nodes[i].ast is not None and isinstance(cfg.nodes[i].ast.value, ast.Constant) and cfg.nodes[i].ast.value.value is False
+                   and i in region | r and _straight(cfg, b, i, splice.id) for i in r):
+                found = n
+    if found is not None:
+        return [ctx.ok(spec, "in the P2SH arm the emptiness of the stack is tested (`%s`) before the redeem script is spliced in, and one outcome returns False" % ast.unparse(found.ast),
+                       found.ast, mod, key="p2sh-witness-exact-scriptsig")]
+    return [ctx.bad(spec, "after the P2SH hash check the redeem script is spliced in whatever else the scriptSig pushed: a scriptSig `<junk> <redeem script>` for a "
+                          "p2sh-p2wpkh / p2sh-p2wsh output leaves three items on the stack, the `len(stack) == 2` witness rules never fire, and `0 <hash>` ends as a truthy "
+                          "top element -- verify_input returns True without a signature", splice.ast, mod, key="p2sh-witness-exact-scriptsig")]
+
+
+def _straight(cfg, src, dst, avoid):
+    """dst is reachable from src without passing `avoid` and without re-entering a loop head (i.e. within the same iteration)"""
+    heads = {lp.head for lp in cfg.loops.values()}
+    return dst in cfg.reach([src], blocked={avoid} | heads)
+
+
 def c06_12(ctx):
     """MEMO: the message a signature is checked against is recomputed from the transaction as it is now -- a midstate kept from an
     earlier call would let a signature made before an edit (amount, script, sequence, output) still verify afterwards (shared with C05.6)"""
@@ -668,5 +717,6 @@ OBLIGATIONS = [
     ("C06.10", "TABLE", c06_10),
     ("C06.12", "MEMO", c06_12),
     ("C06.13", "OWNERSHIP", c06_13),
+    ("C06.14", "GUARD presence", c06_14),
 ]
 FLOORS = {"C06.2": 9, "C06.3": 4, "C06.7": 3, "C06.9": 3, "C06.10": 10}
